@@ -510,8 +510,19 @@ package seccomp
 
 // MT-3 (meta-theory, DESIGN.md 3.3): a closed block embedded in a program behaves like the block run on its own,
 // then continues behind it. Proved by induction on the execution (not by the SMT solver): trusted.
+//@ lemma MT3ind(prog []bpf.Instruction, s int, B []bpf.Instruction, pc int, A uint32)
+//@   requires subBlock(prog, s, B) && closed(B) && 0 <= pc && pc <= len(B)
+//@   decreases len(B) - pc
+//@   opaque run
+//@   use runStep(prog, s + pc, A)
+//@   use runStep(B, pc, A)
+//@   use MT3ind(prog, s, B, pc + 1, word(ev, unbox(B[pc], bpf.LoadAbsolute).Off)) when pc < len(B) && istype(B[pc], bpf.LoadAbsolute)
+//@   use MT3ind(prog, s, B, pc + 1 + unbox(B[pc], bpf.JumpIf).SkipTrue, A) when pc < len(B) && istype(B[pc], bpf.JumpIf)
+//@   use MT3ind(prog, s, B, pc + 1 + unbox(B[pc], bpf.JumpIf).SkipFalse, A) when pc < len(B) && istype(B[pc], bpf.JumpIf)
+//@   use MT3ind(prog, s, B, pc + 1 + w2i(unbox(B[pc], bpf.Jump).Skip), A) when pc < len(B) && istype(B[pc], bpf.Jump)
+//@   ensures run(prog, s + pc, A) == thenRun(run(B, pc, A), prog, s + len(B))
 //@ lemma MT3(prog []bpf.Instruction, s int, B []bpf.Instruction, A uint32)
-//@   trusted
+//@   use MT3ind(prog, s, B, 0, A) when subBlock(prog, s, B) && closed(B)
 //@   ensures subBlock(prog, s, B) && closed(B) ==> run(prog, s, A) == thenRun(run(B, 0, A), prog, s + len(B))
 
 // the macro form used inside toSyscallsWithConditions and the named form used at group/policy level agree
